@@ -36,6 +36,7 @@ type reqState struct {
 	site    string
 	key     string
 	release chan struct{}
+	releasedAt time.Time
 }
 
 // Control owns fault plans, the kill plan, passage counting and the deterministic scheduler.
@@ -193,10 +194,16 @@ func (c *Control) StopGating() {
 func (c *Control) park(rid, site, key string) {
 	c.mu.Lock()
 	s := c.reqs[rid]
-	if s == nil && c.gating && strings.HasSuffix(rid, "~") && c.reqs[strings.TrimSuffix(rid, "~")] != nil {
-		// work running beside / after its request (see InstallHook): an actor of its own, created on first sight
-		s = &reqState{status: "running"}
-		c.reqs[rid] = s
+	if s != nil && c.gating && s.status == "parked" {
+		// ANOTHER goroutine working for this request is parked already (the shipped code has one thread of control per request between
+		// the gates; work that runs beside or outlives its request - e.g. a rule evaluation that goes on after the ruler has returned -
+		// gives two): the newcomer is an actor of its own, "<rid>~"
+		rid += "~"
+		s = c.reqs[rid]
+		if s == nil {
+			s = &reqState{status: "running"}
+			c.reqs[rid] = s
+		}
 	}
 	if s == nil || !c.gating {
 		c.mu.Unlock()
@@ -272,9 +279,14 @@ func (c *Control) Done(rid string) {
 // stable reports, under c.mu, whether request state s cannot change without scheduler action.
 func (c *Control) stableLocked(rid string, s *reqState) bool {
 	if s.status == "running" {
-		// a request whose storage step is being taken by work beside it (actor rid~) that is parked waits for that work
+		// a request one of whose two actors (rid, rid~) is parked may be waiting for that one
 		if o := c.reqs[rid+"~"]; o != nil && o.status == "parked" {
 			return true
+		}
+		if strings.HasSuffix(rid, "~") {
+			if o := c.reqs[strings.TrimSuffix(rid, "~")]; o != nil && o.status == "parked" {
+				return true
+			}
 		}
 	}
 	switch s.status {
@@ -317,9 +329,14 @@ func (c *Control) waitStable(timeout time.Duration) bool {
 	}
 }
 
+func recentlyReleased(s *reqState) bool {
+	return s != nil && !s.releasedAt.IsZero() && time.Since(s.releasedAt) < 60*time.Millisecond
+}
+
 func (c *Control) releaseLocked(rid string) {
 	s := c.reqs[rid]
 	if s != nil && s.status == "parked" {
+		s.releasedAt = time.Now()
 		s.status = "running"
 		if s.finished || strings.HasSuffix(rid, "~") {
 			s.status = "done" // (an actor beside its request is not followed further; if it reaches another gate it parks again)
@@ -470,10 +487,26 @@ tokenLoop:
 				// is advanced by ONE gate and the token tried again, so that the schedule is realised as closely as the code's own
 				// blocking allows (the blocked request goes ahead the moment the holder lets go, not after the holder has finished).
 				if o, held := c.owner[s.key]; held && o != t.Rid {
+					if recentlyReleased(c.reqs[o]) || recentlyReleased(c.reqs[o+"~"]) {
+						// an actor of the holder has just been let go (it may be about to release this very lock): look again in a moment
+						c.mu.Unlock()
+						time.Sleep(2 * time.Millisecond)
+						continue
+					}
+					if tw := c.reqs[o+"~"]; tw != nil && tw.status == "parked" && (tw.site == "unlock" || c.reqs[o] == nil || c.reqs[o].status != "parked") {
+						o += "~" // of two parked actors of the holder, the one at the unlock gate is the one that lets the lock go
+					}
 					if os := c.reqs[o]; os != nil && os.status == "parked" {
 						res.Deviations = append(res.Deviations, fmt.Sprintf("%s@%s:%s waits for %s: holder %s advanced past %s", t.Rid, t.Site, t.Key, s.key, o, os.site))
 						c.releaseLocked(o)
 						c.mu.Unlock()
+						continue
+					}
+					if os := c.reqs[o]; os != nil && os.status == "running" {
+						// the holder is on its way (it has just been let go and is about to release the lock, or to reach its next gate):
+						// not a deviation yet - look again once it has settled
+						c.mu.Unlock()
+						time.Sleep(2 * time.Millisecond)
 						continue
 					}
 				}
